@@ -39,6 +39,7 @@ type plain struct {
 	inputs []controller.Input
 	last   map[string]obs
 	runs   int
+	later  []controller.Input // inputs added through UpdateInputs on the first run
 }
 
 func (p *plain) Name() string                 { return p.name }
@@ -52,6 +53,9 @@ func (p *plain) Run(ctx context.Context, r controller.Runtime, _ *zap.Logger) er
 		case <-r.EventCh():
 		}
 		p.runs++
+		if p.runs == 1 && p.later != nil {
+			verif.Assert(r.UpdateInputs(p.later) == nil, "inputs added at run time are accepted")
+		}
 		for _, id := range ids {
 			p.last[id] = observe(ctx, r, id)
 		}
@@ -126,7 +130,7 @@ func write(ctx context.Context, st state.State, mappedAllowed bool) {
 }
 
 type variant struct {
-	cached, byID, destroyReady, mapped bool
+	cached, byID, destroyReady, mapped, dynamic bool
 }
 
 func assembled(v variant, nBeforeMax, nw int) {
@@ -147,9 +151,15 @@ func assembled(v variant, nBeforeMax, nw int) {
 		in.ID = optional.Some("a")
 	}
 	pc := &plain{name: "plain", inputs: []controller.Input{in}, last: map[string]obs{}}
+	if v.dynamic {
+		// the input is declared only later, by the running controller; nobody else watches the kind
+		pc.inputs, pc.later = nil, []controller.Input{in}
+	}
 	qc := &qprobe{last: map[string]obs{}, lastMapped: map[string]uint64{}}
 	verif.Assert(rt.RegisterController(pc) == nil, "plain controller registered")
-	verif.Assert(rt.RegisterQController(qc) == nil, "queue controller registered")
+	if !v.dynamic {
+		verif.Assert(rt.RegisterQController(qc) == nil, "queue controller registered")
+	}
 	nBefore := verif.Choose("writesBeforeStart", nBeforeMax+1)
 	for i := 0; i < nBefore; i++ {
 		write(ctx, st, false)
@@ -176,7 +186,9 @@ func assembled(v variant, nBeforeMax, nw int) {
 				verif.Cover("destroy-ready observed")
 			}
 		}
-		if cur.found {
+		if v.dynamic {
+			verif.Cover("input added later")
+		} else if cur.found {
 			verif.Assert(qc.last[id] == cur, "queue controller: the last state it read for the item is the current state")
 		} else if lo, seen := qc.last[id]; seen {
 			verif.Assert(!lo.found, "queue controller: a destroyed item was last seen as gone")
@@ -217,19 +229,21 @@ func H_AssembledKinds() {
 		nw = 2
 	}
 	v := variant{}
-	switch verif.Choose("variant", 3) {
+	switch verif.Choose("variant", 4) {
 	case 0:
 		v.cached = true
 	case 1:
 		v.destroyReady = true
 	case 2:
 		v.mapped = true
+	case 3:
+		v.dynamic = true
 	}
 	nBefore := 0
-	if v.destroyReady || v.cached {
+	if v.destroyReady || v.cached || v.dynamic {
 		nBefore = 1
 	}
-	assembled(v, nBefore, nw+b2i(v.mapped || v.destroyReady))
+	assembled(v, nBefore, nw+b2i(v.mapped || v.destroyReady || v.dynamic))
 }
 
 func b2i(b bool) int {
